@@ -570,7 +570,7 @@ func (u *Unit) lenOf(st *State, v Val, t types.Type) *Term {
 			return IntLit(at.Len())
 		}
 	}
-	unsupp("len of %s", t)
+	unsupp("len of %s (sort %s)", t, x.Sort)
 	return nil
 }
 
